@@ -87,10 +87,10 @@ def step (p : Pair) : PStep → Pair
 
 def run (p : Pair) (sched : List PStep) : Pair := sched.foldl step p
 
-/-- synchronous admissibility of both local users (`Dul.stepOk` of the side the step belongs to) -/
+/-- synchronous admissibility of both local users (`Dul.stepOkSync` of the side the step belongs to: primitives only at quiescent points — the streamed P-DATA requests `Dul.stepOk` also admits are not part of the C06 hypotheses) -/
 def stepOk (p : Pair) : PStep → Bool
-  | .r st => Dul.stepOk p.r st
-  | .a st => Dul.stepOk p.a st
+  | .r st => Dul.stepOkSync p.r st
+  | .a st => Dul.stepOkSync p.a st
   | _ => true
 
 def runOk : Pair → List PStep → Bool
